@@ -76,6 +76,11 @@ def step (s0 : DS) (line : String) : DS × String :=
     let out := cCloseF s.cfg s.fc s.mk' ⟨s.cs, s.mdisk, s.rs⟩
     let s1 := pushR s out.ops
     ({ s1 with cs := out.st.cs, rs := [] }, if out.failed then "ok err" else "ok ok")
+  | ["act", "compact", ep, order] =>
+    let e := epOf ep
+    let out := cCompactF s.cfg s.fc s.mk' ⟨s.cs, s.mdisk, s.rs⟩ e (parseOrder order) (order == "skip")
+    let s1 := pushR s out.ops
+    ({ s1 with cs := out.st.cs, rs := [] }, "ok")
   | _ => Driver.BStor.step hooks s0 line
 
 def cfgOfArgs (kv : List (String × String)) : Cfg :=
